@@ -1,0 +1,76 @@
+//go:build verif
+
+// Contracts for the verification harness in /verif (comment-only; no declarations).
+package apply
+
+// ---- C05: three-way merge ----
+
+// Input domain of the merge family: JSON-decoded trees. encoding/json never produces a typed nil map or slice inside a tree
+// (null decodes to the nil interface), so a value that is a map is a non-nil map.
+//@ pred jsonMap(v) = typeis(v, map[string]interface{}) ==> unbox(v, map[string]interface{}) != nil
+
+// merge: dispatch on the observed value. A type clash between the observed value and the desired one is an error.
+//@ func merge(fieldPath, destination, lastApplied, desired) (res, err)
+//@   requires-assumed jsonMap(destination)
+//@   // the destination tree is a private deep copy (Merge) and JSON values are trees: no map of it is shared with the other two
+//@   requires-assumed typeis(destination, map[string]interface{}) ==> destination != lastApplied && destination != desired
+//@   safety C05,C13
+//@   ensures [C05] typeis(destination, map[string]interface{}) && desired != nil && !typeis(desired, map[string]interface{}) ==> err != nil
+//@   ensures [C05] typeis(destination, []interface{}) && desired != nil && !typeis(desired, []interface{}) ==> err != nil
+//@   ensures [C05] typeis(destination, map[string]interface{}) && lastApplied != nil && !typeis(lastApplied, map[string]interface{}) ==> err != nil
+//@   ensures [C05] typeis(destination, []interface{}) && lastApplied != nil && !typeis(lastApplied, []interface{}) ==> err != nil
+//@   ensures [C05] !typeis(destination, map[string]interface{}) && !typeis(destination, []interface{}) ==> err == nil && res == desired
+//@   ensures [C05] err != nil ==> res == nil
+
+// mergeObject: one level of the three-way merge on objects. Removal of what was applied earlier and is no longer desired,
+// presence of everything desired, preservation of everything else (same key, same value: foreign fields are not touched),
+// the result is the (updated) destination map itself.
+//@ func mergeObject(fieldPath, destination, lastApplied, desired) (res, err)
+//@   requires destination != nil && destination != lastApplied && destination != desired
+//@   safety C05,C13
+//@   // JSON values are trees and the three arguments are separate trees (Merge works on a deep copy of observed): merging one
+//@   // field's value does not write the maps of this level
+//@   keeps call merge: destination, lastApplied, desired
+//@   bind loop 1: lk, lv
+//@   bind loop 2: dk, dv
+//@   invariant loop 1 [C05]: forall k string :: visited(1, k) && !has(desired, k) ==> !has(destination, k)
+//@   invariant loop 1 [C05]: forall k string :: !(has(lastApplied, k) && !has(desired, k)) ==> has(destination, k) == old(has(destination, k)) && destination[k] == old(destination[k])
+//@   invariant loop 2 [C05]: forall k string :: has(lastApplied, k) && !has(desired, k) ==> !has(destination, k)
+//@   invariant loop 2 [C05]: forall k string :: !has(lastApplied, k) && !has(desired, k) ==> has(destination, k) == old(has(destination, k)) && destination[k] == old(destination[k])
+//@   invariant loop 2 [C05]: forall k string :: visited(2, k) ==> has(destination, k)
+//@   invariant loop 2 [C05]: forall k string :: has(lastApplied, k) == old(has(lastApplied, k)) && lastApplied[k] == old(lastApplied[k]) && has(desired, k) == old(has(desired, k)) && desired[k] == old(desired[k])
+//@   at merge(p, d, l, s) [C05]: has(desired, dk) && s == desired[dk] && l == lastApplied[dk] && d == destination[dk]
+//@   ensures [C05] err != nil ==> res == nil
+//@   ensures [C05] err == nil ==> typeis(res, map[string]interface{}) && unbox(res, map[string]interface{}) == destination
+//@   ensures [C05] err == nil ==> (forall k string :: has(desired, k) ==> has(destination, k))
+//@   ensures [C05] err == nil ==> (forall k string :: has(lastApplied, k) && !has(desired, k) ==> !has(destination, k))
+//@   ensures [C05] err == nil ==> (forall k string :: !has(lastApplied, k) && !has(desired, k) ==> has(destination, k) == old(has(destination, k)) && destination[k] == old(destination[k]))
+//@   ensures [C05] forall k string :: has(lastApplied, k) == old(has(lastApplied, k)) && lastApplied[k] == old(lastApplied[k]) && has(desired, k) == old(has(desired, k)) && desired[k] == old(desired[k])
+
+// mergeArray: a list that does not look like a list map is replaced by the desired list; list maps go to mergeListMap.
+//@ func detectListMapKey(lists) (key)
+//@   trusted list-map detection and merge are outside the generator's reach (deep induction over lists of objects): exercised by the repo's tests only
+//@   pure
+
+//@ func mergeListMap(fieldPath, mergeKey, destination, lastApplied, desired) (res, err)
+//@   trusted list-map detection and merge are outside the generator's reach (deep induction over lists of objects): exercised by the repo's tests only
+//@   ensures [C05] err != nil ==> res == nil
+
+//@ func mergeArray(fieldPath, destination, lastApplied, desired) (res, err)
+//@   safety C05,C13
+//@   bind call detectListMapKey: mergeKey
+//@   at mergeListMap(p, k, d, l, s) [C05]: k == mergeKey && k != "" && d == destination && l == lastApplied && s == desired
+//@   ensures [C05] mergeKey == "" ==> err == nil && typeis(res, []interface{}) && unbox(res, []interface{}) == desired && !called(mergeListMap)
+//@   ensures [C05] err != nil ==> res == nil
+
+// Merge: works on a deep copy of observed (so observed is never written), hands the three trees to merge unchanged, and
+// returns the copy - or nil with the error.
+//@ func Merge(observed, lastApplied, desired) (res, err)
+//@   safety C05,C13
+//@   bind call merge: mres, merr
+//@   bind call DeepCopyJSON: copy
+//@   at merge(p, d, l, s) [C05]: p == "" && typeis(d, map[string]interface{}) && unbox(d, map[string]interface{}) == copy && typeis(l, map[string]interface{}) && unbox(l, map[string]interface{}) == lastApplied && typeis(s, map[string]interface{}) && unbox(s, map[string]interface{}) == desired
+//@   at merge(p, d, l, s) [C05,C17]: observed != nil ==> copy != observed && copy != lastApplied && copy != desired && fresh(copy)
+//@   ensures [C05] count(merge) == 1 && count(DeepCopyJSON) == 1
+//@   ensures [C05] merr != nil ==> err != nil && res == nil
+//@   ensures [C05] merr == nil ==> err == nil && res == copy
